@@ -170,3 +170,54 @@ func HarnessC03GCRetry() {
 	refs := zzStoredRefNames(s)
 	zz.Assert("references-name-exactly-what-is-left", len(refs) == 1 && refs[0] == kept)
 }
+
+// HarnessC03CarriedAnnotation: a desired resource whose body carries a
+// composition-resource-name annotation other than its own name - a function
+// that renamed a resource and copied the observed metadata over, a template
+// exported from a live object. Three reconciles of a fresh XR: the resource
+// is created once under its own name and, being desired throughout, is never
+// deleted; the third reconcile changes nothing.
+//
+//gosym:harness
+//gosym:cover carried quiescent
+func HarnessC03CarriedAnnotation() {
+	s := kube.New()
+	zzSetupComposedN(s, 0, 0, "", false)
+	st := zzStep{desired: []bool{true, true}, carried: []string{"", ""}}
+	if zz.Bool("res0.carriesAnotherName") {
+		zz.Cover("carried")
+		st.carried[0] = "old-name"
+	}
+	runner := &zzRunner{steps: []zzStep{st}}
+	c := NewFunctionComposer(s, s, runner)
+	req := CompositionRequest{Revision: zzRevision(1)}
+	before := 0
+	for k := 0; k < 3; k++ {
+		if k == 2 {
+			for _, w := range s.Writes(false) {
+				if w.Effect {
+					before++
+				}
+			}
+		}
+		_, err := c.Compose(context.Background(), zzReadXR(s), req)
+		zz.Assert("reconcile-succeeds", err == nil)
+		if err != nil {
+			return
+		}
+	}
+	for _, w := range s.Log {
+		if w.Verb == kube.VerbDelete && w.Kind == zzCDKind {
+			zz.Assert("still-desired-resource-never-deleted", false)
+		}
+	}
+	zz.Assert("one-composed-resource-per-desired-name", s.Count(zzCDGroup, zzCDKind) == 2)
+	after := 0
+	for _, w := range s.Writes(false) {
+		if w.Effect {
+			after++
+		}
+	}
+	zz.Cover("quiescent")
+	zz.Assert("third-reconcile-changes-nothing", after == before)
+}
